@@ -98,6 +98,36 @@ def run(tier):
             for opt in ("a", "b"):
                 for st in sorted(set([p_, 100] + ([1, 2, 3, 4, 5, 6, 7, 8, 9] if tier == "thorough" else r.sample([1, 2, 3, 4, 5, 6, 7, 8, 9], 2)))):
                     sreqs.append({"iupac": txt, "kw": {"root_orientation": opt, "start": st}}); smeta.append((txt, opt, "opt", st))
+    # any residue the grammar can write (random sentences of rule deriv) as reducing end: the start atom never changes the
+    # molecule, and the anomer by option is the anomer by suffix
+    import gen as _G
+    gmeta, greqs = [], []
+    for d in [x for x in _G.grammar_sentences(r, 60 if tier == "quick" else 500, prefer=_G.plausible(orc.drv))[::2] if "(" not in x and " " not in x and x[-1] not in "ab"]:
+        for txt in (d, f"Gal(b1-4){d}"):
+            greqs.append({"iupac": txt, "kw": {}}); gmeta.append((txt, "plain", None))
+            for st in r.sample([1, 2, 3, 4, 5, 6, 7, 8, 9, 0, 42], 3):
+                greqs.append({"iupac": txt, "kw": {"start": st}}); gmeta.append((txt, "start", st))
+            for an in "ab":
+                greqs.append({"iupac": txt + " " + an, "kw": {}}); gmeta.append((txt, "suffix", an))
+                greqs.append({"iupac": txt, "kw": {"root_orientation": an}}); gmeta.append((txt, "option", an))
+    gouts = C.run_impl_parallel("convert_many", greqs)
+    gtab = {m: o["smiles"] for m, o in zip(gmeta, gouts)}
+    n_gram = 0
+    for (txt, kind, v), got in gtab.items():
+        plain_ = gtab.get((txt, "plain", None))
+        if kind == "start" and plain_:
+            n_gram += 1
+            if not got or not orc.same(got, plain_):
+                report.fail({"site": "start", "kind": "molecule-changed" if got else "empty", "start": "grammar-residue"},
+                            {"glycan": txt, "start": v, "observed": got, "with_default_start": plain_, "problem": "the start option changed the molecule"})
+        if kind == "option":
+            want = gtab.get((txt, "suffix", v))
+            if want:
+                n_gram += 1
+                if not got or not orc.same(got, want):
+                    report.fail({"site": "root-anomer", "kind": "suffix-vs-option", "suffix": "-", "option": v, "root": "grammar-residue"},
+                                {"glycan": txt, "root_orientation": v, "observed": got, "expected_same_as": want,
+                                 "problem": "anomer given by option differs from the same anomer given by suffix"})
     # objects whose SMILES is assembled lazily (tree_only=True; full=False with an undetermined part)
     for root in (ends[:8] if tier == "quick" else ends):
         poss = T.RES[root][1] if root in T.RES else extra_pos[root]
@@ -128,7 +158,7 @@ def run(tier):
                     {"no_failing_input": True, "what_no_longer_checks": broken, "theorems": names_thm})
     report.assumptions = ["A-rdkit-write: a SMILES rooted at another atom denotes the same molecule (decided per input by Iso.same_molecule)"]
     extra = {"rule": "glycans x root anomer {none,a,b} by suffix x option {n,a,b} x start in {1..9,100,0,-1,42,10,1000} (quick: 7 of them); plus every reducing-end residue of the generator's vocabulary and further ring forms x every free position x anomer by option x start on the linkage position; distinct glycans, non-trivial = at least 2 residues",
-             "conversions": len(reqs) + len(sreqs), "reducing_end_sweep": swept, "print_assumptions": res.assumptions.get(f"Props/{PROP}.v", "").strip().splitlines()[-4:]}
+             "conversions": len(reqs) + len(sreqs), "reducing_end_sweep": swept, "grammar_residue_checks": n_gram, "print_assumptions": res.assumptions.get(f"Props/{PROP}.v", "").strip().splitlines()[-4:]}
     return report.finish("proof", ob, dis, names_thm, trusted=C.TRUSTED, extra=extra)
 
 
